@@ -93,6 +93,17 @@ Definition dCase :=
   let* vols := dList dZ in
   let* t := dNames in let* p := dPod in ret (ippvs, plr, ippl, dra, m, vol_outcome vols, t, p).
 
+(* selector 3: one pod delivered through the cache's event handlers:
+     ippvs plr ippl dra, name table, n, n x (phase nodeName? deleting?, volumes, pod)
+   AddPod(v0), UpdatePod(v0,v1), ...; output per event: tag 20, the cached task's
+   Resreq, its InitResreq (the same object), the node's Used. *)
+Definition dHistory :=
+  let* ippvs := dBool in let* plr := dBool in let* ippl := dBool in let* dra := dBool in
+  let* t := dNames in
+  let* vs := dList (let* m := dMeta in let* vols := dList dZ in let* p := dPod in
+                    ret (default [] (vol_outcome vols), m, p)) in
+  ret (ippvs, plr, ippl, dra, t, vs).
+
 Definition entry (sel : Z) (toks : list Z) : list Z :=
   (* selector 2 = selector 1; the harness additionally asserts that the case (a
      refutation witness) still separates volcano from upstream on the real code *)
@@ -114,6 +125,17 @@ Definition entry (sel : Z) (toks : list Z) : list Z :=
            tag 11 ++ eRl (k8s_pod_requests ps (opts_incoming plr dra) p)
          | None => bad_input end
   (* laws on the implementations' own results: must answer [1] *)
+  | 3 => match run_dec dHistory toks with
+         | Some (ippvs, plr, ippl, dra, t, vs) =>
+           let tr := tracked_of t in let ps := plsup_of t in
+           flat_map (fun st => tag 20 ++ eRes (st_task st) ++ eRes (st_task st) ++ eRes (st_used st))
+             (ev_trace (map (fun x : list positive * pod_meta * pod =>
+                               cache_task_resreq tr ps ippvs plr ippl dra x.1.1 x.1.2 x.2) vs))
+         | None => bad_input end
+  | 107 => match run_dec (let* up := dRes in let* crq := dRes in let* cirq := dRes in let* used := dRes in
+                          ret (up, crq, cirq, used)) toks with
+           | Some (up, crq, cirq, used) => eBool (law_event up crq cirq used)
+           | None => bad_input end
   | 101 => match run_dec (let* up := dRes in let* vc := dRes in let* rq := dRes in let* irq := dRes in
                           let* be := dBool in ret (up, vc, rq, irq, be)) toks with
            | Some (up, vc, rq, irq, be) => eBool (law_task_reservation up vc rq irq be)
